@@ -21,29 +21,57 @@ def SameUpToMapOrder (c c' : CanonReq) : Prop :=
 /-- Lookups do not depend on entry order. -/
 theorem assocGet_perm {β : Type} (m m' : List (Bytes × β)) (k : Bytes) (h : m.Perm m')
     (hn : (m.map (·.1)).Nodup) : assocGet m k = assocGet m' k := by
-  sorry
+  exact assocGet_perm' k h hn
 
 /-- The canonical request bytes do not depend on hash-map iteration order. -/
 theorem canonicalRequest_order_invariant (c c' : CanonReq) (signed : List Bytes) (h : SameUpToMapOrder c c') :
     canonicalRequest c signed = canonicalRequest c' signed := by
-  sorry
+  obtain ⟨h1, h2, h3, h4, h5, _, h7⟩ := h
+  unfold canonicalRequest
+  rw [h1, h2, h3, canonQuery_perm h4, headerLine_perm h5 h7]
 
 /-- The requirement loops (which iterate over the header map's keys) do not depend on it either. -/
 theorem requirementsMet_order_invariant (reqs : Requirements) (hdrs hdrs' : HeaderMap) (signed : List Bytes)
     (h : hdrs.Perm hdrs') (hn : (hdrs.map (·.1)).Nodup) :
     requirementsMet reqs hdrs signed = requirementsMet reqs hdrs' signed := by
-  sorry
+  unfold requirementsMet
+  have h1 : ∀ k, assocGet hdrs k = assocGet hdrs' k := fun k => assocGet_perm' k h hn
+  have h2 : ∀ f : Bytes × List Bytes → Bool, hdrs.all f = hdrs'.all f := fun f => h.all_eq
+  simp only [h1, h2]
 
 /-- Hence the authenticator — and with it the whole outcome — is independent of hash seeds. -/
 theorem getAuthenticator_order_invariant (H : Bytes → Bytes) (reqs : Requirements) (c c' : CanonReq)
     (h : SameUpToMapOrder c c') : getAuthenticator H reqs c = getAuthenticator H reqs c' := by
-  sorry
+  obtain ⟨_, _, _, h4, h5, h6, h7⟩ := h
+  have hex : extractAuthParams c = extractAuthParams c' :=
+    extractAuthParams_congr c c' (fun k => assocGet_perm' k h5 h7) (fun k => assocGet_perm' k h4 h6)
+  unfold getAuthenticator getAuthParams
+  rw [hex]
+  cases extractAuthParams c' with
+  | err k => rfl
+  | panic p => rfl
+  | ok ap =>
+    simp only
+    rw [requirementsMet_order_invariant reqs c.headers c'.headers ap.signedHeaders h5 h7]
+    by_cases hr : requirementsMet reqs c'.headers ap.signedHeaders = true
+    · rw [if_pos hr]
+      simp only
+      unfold authenticatorOf
+      rw [canonicalRequest_order_invariant c c' ap.signedHeaders ⟨‹_›, ‹_›, ‹_›, h4, h5, h6, h7⟩]
+    · rw [if_neg hr]
 
 /-- The maps the code builds do have unique keys (so the theorems above apply to them). -/
 theorem fromRequestParts_unique_keys (H : Bytes → Bytes) (opts : Options) (other : OtherCharset) (req : Request)
     (fp : FromParts) (h : fromRequestParts H opts other req = .ok fp) :
     (fp.creq.params.map (·.1)).Nodup ∧ (fp.creq.headers.map (·.1)).Nodup := by
-  sorry
+  obtain ⟨_, _, hh, _, up, hup, hp⟩ := fromRequestParts_inv H opts other req fp h
+  have hu := nodup_keys_parseQuery _ _ hup
+  refine ⟨?_, ?_⟩
+  · rcases hp with hp | ⟨text, bp, _, hp⟩
+    · rw [hp]; exact hu
+    · rw [hp]; exact nodup_keys_mergeParams up bp hu
+  · rw [hh]
+    exact nodup_keys_normalizeHeaders _ [] List.nodup_nil
 
 /-- Reentrancy: with a provider whose answers do not depend on its state (a pure key store), the
 outcome of a validation is the same wherever it occurs in any history of other validations. -/
@@ -52,7 +80,19 @@ theorem outcome_independent_of_history {σ : Type} (H : Bytes → Bytes) (P : Pr
     (hpure : ∀ st st' pr, (P.ready st).1 = (P.ready st').1 ∧ (P.call st pr).1 = (P.call st' pr).1) :
     (validateMany H P s (before ++ [(cfg, req)])).1.getLast? =
       some ((validate H cfg P s req).out, (validate H cfg P s req).calls) := by
-  sorry
+  induction before generalizing s with
+  | nil =>
+    simp only [List.nil_append]
+    rw [validateMany_cons]
+    rfl
+  | cons x rest ih =>
+    obtain ⟨cfg', req'⟩ := x
+    rw [List.cons_append, validateMany_cons]
+    simp only [List.getLast?_cons]
+    rw [ih (validate H cfg' P s req').state]
+    obtain ⟨e1, e2⟩ := validate_out_calls_state_indep H cfg P (validate H cfg' P s req').state s req hpure
+    rw [e1, e2]
+    rfl
 
 end SigV4.C18
 
